@@ -25,6 +25,28 @@ pub enum Expect {
     CompileError { classes: Vec<String> },
     /// any of the alternatives
     OneOf { alts: Vec<Expect> },
+    /// a value all of whose floats are finite, or an error value, or a violation
+    Finite,
+    /// a value of the shape of this static type, or an error value, or a violation
+    Conforms {
+        ty: crate::gstd::Ty,
+        defs: std::collections::BTreeMap<String, crate::gstd::CompoundDef>,
+    },
+}
+
+/// first non-finite float in a dump
+pub fn non_finite(d: &Value) -> Option<String> {
+    let mut bad = None;
+    dump::walk(d, &mut |n| {
+        if let Some(bits) = n.get("f").and_then(|b| b.as_str()) {
+            if let Ok(b) = u64::from_str_radix(bits, 16) {
+                if !f64::from_bits(b).is_finite() && bad.is_none() {
+                    bad = Some(format!("{}", f64::from_bits(b)));
+                }
+            }
+        }
+    });
+    bad
 }
 
 pub fn satisfied(e: &Expect, o: &Out) -> bool {
@@ -50,6 +72,16 @@ pub fn satisfied(e: &Expect, o: &Out) -> bool {
             matches!(o, Out::CompileError { class, .. } if classes.is_empty() || classes.contains(class))
         }
         Expect::OneOf { alts } => alts.iter().any(|a| satisfied(a, o)),
+        Expect::Finite => match o {
+            Out::Value { dump: d } => non_finite(d).is_none(),
+            Out::Error { .. } | Out::Violation { .. } => true,
+            _ => false,
+        },
+        Expect::Conforms { ty, defs } => match o {
+            Out::Value { dump: d } => crate::gstd::conforms(d, ty, defs, 0).is_ok(),
+            Out::Error { .. } | Out::Violation { .. } => true,
+            _ => false,
+        },
     }
 }
 
@@ -57,9 +89,9 @@ pub fn satisfied(e: &Expect, o: &Out) -> bool {
 pub fn brief(o: &Out) -> String {
     match o {
         Out::Value { dump: d } => {
-            let mut s = dump::strip(d).to_string();
-            if s.len() > 200 {
-                s.truncate(200);
+            let full = dump::strip(d).to_string();
+            let mut s: String = full.chars().take(200).collect();
+            if s.len() < full.len() {
                 s.push('…');
             }
             format!("value {s}")
